@@ -260,10 +260,14 @@ struct Interp {
    * exists under that name, otherwise this sub-oracle is off.
    *------------------------------------------------------------------------*/
   void
-  cache_watch(bool call_entry)
+  cache_watch(bool call_entry, bool releasing = false)
   {
     if constexpr (requires { L::tls_node_.get(); }) {
-      if (call_entry) {
+      if (call_entry && releasing) {
+        // a releasing call may put a node into the cache when it ends, but the node that already sits there has been
+        // handed back: nobody - the owner included - may touch it during this call
+        vsched::region_include_owner(me, true);
+      } else if (call_entry) {
         vsched::region_clear(me);  // the owner may take the node out of its cache and publish it again
       } else if (auto *n = L::tls_node_.get(); n != nullptr) {
         vsched::region_set(me, n, reinterpret_cast<const char *>(n) + sizeof(L), "STALE-NODE", "a queue node that was handed back for reuse (thread cache)");
@@ -457,7 +461,7 @@ struct Interp {
     unregister(l, kind);
     g.inrel[me] = true;
     vsched::heap_lib_scope(true);
-    cache_watch(true);
+    cache_watch(true, true);
     action();
     vsched::heap_lib_scope(false);
     cache_watch(false);
@@ -477,10 +481,12 @@ struct Interp {
     if (g.ns[me] < 1) g.ns[me] = 1;
     g.inrel[me] = true;
     vsched::heap_lib_scope(true);
-    cache_watch(true);
-    while (v.size() > 1) v.pop_back();
+    while (v.size() > 1) {
+      cache_watch(true, true);
+      v.pop_back();
+      cache_watch(false);
+    }
     vsched::heap_lib_scope(false);
-    cache_watch(false);
     g.inrel[me] = false;
     vsched::nopreempt_leave();
     SlotModel tm;
@@ -895,6 +901,7 @@ struct Interp {
         break;
       }
       case S_MANY_REL: release_many(op.a & 1); break;
+      case PARK: vsched::park(); break;
       case HOLD:
         // a long-lived holder: others get many turns (retry / back-off budgets of waiters run out)
         for (uint32_t k = 0; k < op.arg && k < 400; k++) vsched::harness_yield();
@@ -1198,6 +1205,7 @@ run_case_t(const Case &c, const vsched::Config &cfg, Outcome &out, int *phase_ou
     }
   }
   vsched::run(specs, c.sched, rcfg);
+  for (int t = 0; t < kMaxT; t++) ctx.out.lsteps[t] = vsched::stats().lsteps[t];
 
   if (ctx.is_mcs) {
     const auto hs = vsched::heap_stats();
